@@ -922,6 +922,8 @@ def diagonalize(a, axis=0):
     from .core import COO, as_coo
 
     a = as_coo(a)
+    # every off-diagonal element of the result is zero
+    check_zero_fill_value(a)
 
     diag_shape = a.shape + (a.shape[axis],)
     diag_coords = np.vstack([a.coords, a.coords[axis]])
